@@ -224,15 +224,28 @@ Proof.
 Qed.
 
 (* ---------- (E) the pipe counts only valid transfers ---------- *)
-Theorem pipe_counts_only_valid : fix_pipe_counts_valid = true ->
-  forall c aggr rate, (forall e, In e (c_q c) -> e_valid e = false) ->
-  pipe_has_room c (calculate_pipe_size aggr rate) = true.
-Proof.
-  intros FE c aggr rate H. unfold pipe_has_room, queued_for_pipe. rewrite FE.
-  assert (E : filter e_valid (c_q c) = []).
-  { induction (c_q c) as [|e l IH]; [reflexivity|]. cbn. rewrite (H e (or_introl eq_refl)). apply IH. intros e0 I0. apply H. right. assumption. }
-  rewrite E. cbn. apply N.ltb_lt. pose proof (pipe_positive aggr rate). lia.
-Qed.
+Section PipePolicy.
+  (* any pipe-size policy (endgame flag, rate) that never returns 0 -- RequestList::calculate_pipe_size is probed, not modelled *)
+  Variable pipe : bool -> N -> N.
+  Hypothesis pipe_pos : forall aggr rate, 1 <= pipe aggr rate.
+
+  Theorem pipe_counts_only_valid : fix_pipe_counts_valid = true ->
+    forall c aggr rate, (forall e, In e (c_q c) -> e_valid e = false) ->
+    pipe_has_room c (pipe aggr rate) = true.
+  Proof.
+    intros FE c aggr rate H. unfold pipe_has_room, queued_for_pipe. rewrite FE.
+    assert (E : filter e_valid (c_q c) = []).
+    { induction (c_q c) as [|e l IH]; [reflexivity|]. cbn. rewrite (H e (or_introl eq_refl)). apply IH. intros e0 I0. apply H. right. assumption. }
+    rewrite E. cbn. apply N.ltb_lt. pose proof (pipe_pos aggr rate). lia.
+  Qed.
+
+  (* with a pipe of at least 1 the smallest value the request gate can take is min_gate *)
+  Theorem gate_at_least_min : Params.c04_pipe_gate_div <> 0 -> forall aggr rate,
+    min_gate <= (pipe aggr rate + Params.c04_pipe_gate_add) / Params.c04_pipe_gate_div.
+  Proof.
+    intros D aggr rate. unfold min_gate. apply N.div_le_mono; [assumption|]. pose proof (pipe_pos aggr rate). lia.
+  Qed.
+End PipePolicy.
 
 (* When the acceptor admits "the client dropped its interest in p" (fill_write_buffer), then no listed piece is
    announced by p, and either nothing at all can be delegated to p, or a VALID request is queued at p, or the
